@@ -42,7 +42,10 @@ def main():
                 shutil.rmtree(w, ignore_errors=True)
             sh(f"git -C /repo worktree add -q --detach {wt} HEAD")
             sh(f"git -C /repo worktree add -q --detach {clean} HEAD")
-            rc, out = sh(f"git apply --3way {d}/patch.diff", cwd=wt)
+            patch = os.path.join(d, "patch.rebased.diff") if os.path.exists(os.path.join(d, "patch.rebased.diff")) else os.path.join(d, "patch.diff")
+            demo = "demo-rebased" if os.path.exists(os.path.join(d, "demo-rebased")) else "demo"
+            r["patch"] = os.path.basename(patch)
+            rc, out = sh(f"git apply --3way {patch} && git reset -q", cwd=wt)
             r["apply"] = rc == 0
             r["apply_out"] = out[-600:]
             if rc == 0:
@@ -50,18 +53,19 @@ def main():
                 r["tests_pass"] = rc == 0
                 if rc != 0:
                     r["tests_out"] = out[-1500:]
-                run = os.path.join(d, "demo", "run.sh")
+                run = os.path.join(d, demo, "run.sh")
                 if os.path.exists(run):
-                    rc1, o1 = sh(f"bash {run} {wt}", cwd=os.path.join(d, "demo"), timeout=1200)
-                    rc2, o2 = sh(f"bash {run} {clean}", cwd=os.path.join(d, "demo"), timeout=1200)
+                    rc1, o1 = sh(f"bash {run} {wt}", cwd=os.path.join(d, demo), timeout=1200)
+                    rc2, o2 = sh(f"bash {run} {clean}", cwd=os.path.join(d, demo), timeout=1200)
                     r["demo_fails_patched"] = rc1 != 0
                     r["demo_passes_clean"] = rc2 == 0
                     r["demo_patched_tail"] = o1[-500:]
                     if rc2 != 0:
                         r["demo_clean_tail"] = o2[-800:]
                 # the demos may leave files in the trees
-                sh("git checkout -- . && git clean -fdq", cwd=wt)
-                sh(f"git apply --3way {d}/patch.diff", cwd=wt)
+                sh("git reset -q --hard HEAD && git clean -fdq", cwd=wt)
+                sh("git reset -q --hard HEAD && git clean -fdq", cwd=clean)
+                sh(f"git apply --3way {patch} && git reset -q", cwd=wt)
                 r["checks"] = {}
                 for p in [prop] + [x for x in os.environ.get("ALSO", "").split(",") if x and x != prop]:
                     t0 = time.time()
